@@ -327,6 +327,24 @@ def check_superpose_case(chk, n, kind, sel, seed, failed, extra_atoms=0):
             chk.fail("superpose-attains-minimum", _diagnose(P[i], Q, X0, X1, e) or wc,
                      f"after superpose the alignment atoms are {att:.7g} nm RMS from the reference, the optimum is {o:.7g} (msd tol {tol + slack:.3g})",
                      dict(inp, clause="attains", frame_i=i), observed=att, expected=o)
+    # other reference frame indices (unrelated random structures): frame index honoured
+    if ok:
+        for fr in (0, 2):
+            t, r = _traj(tx, n), _traj(rx, n)
+            t.superpose(r, frame=fr, atom_indices=ai, ref_atom_indices=rai)
+            Qf = _sel(rx[fr], rai_eff)
+            if not _noncollinear(Qf):
+                continue
+            X1 = t.xyz[0].astype(np.float64)
+            o = S.kabsch(P[0], Qf)[0]
+            att = S.rmsd_after(_sel(X1, ai), Qf)
+            e = 4 * EPS * np.abs(tx[0] - tx[0].mean(0)).max() * 2 + ulp32(max(np.abs(X1).max(), np.abs(rx[fr]).max()))
+            p = np.sqrt(3) * e
+            if att ** 2 - o ** 2 > tol_msd(P[0], Qf)[0] + 2 * o * p + p * p:
+                ok = False
+                chk.fail("superpose-reference-frame-index", _diagnose(P[0], Qf, tx[0].astype(np.float64), X1, e) or wc,
+                         f"frame={fr}: alignment atoms are {att:.7g} nm RMS from reference frame {fr}, optimum {o:.7g}", dict(inp, clause="frame", frame=fr),
+                         observed=att, expected=o)
     if ok:
         chk.ok(nontrivial=(n, kind, sel), sample={"n": n, "kind": kind, "sel": sel, "worst_over_tol": round(worst, 3)})
     else:
